@@ -214,7 +214,7 @@ structure PInst where
 structure State where
   lat : Option Nat := none
   insts : List PInst := []
-  ops : List (Nat × Nat × OpKind) := []
+  ops : List (Nat × Nat × OpKind × Bool) := []   -- (op, instance, kind, issued by the periodic check)
   starts : List (Nat × Nat) := []
   ended : Bool := false
   deriving Repr, Inhabited
@@ -262,19 +262,22 @@ def step (s : State) (te : TEv) : R State :=
       match s.get i with
       | some x => pure (s.set { x with flag := il, owed := none, known := if il then some i else x.known })
       | none => pure s
+    | .site op fn =>
+      pure { s with ops := s.ops.map fun o => if o.1 = op then (o.1, o.2.1, o.2.2.1, decide (fn = "checkKeyAndReelect")) else o }
     | .call op i kind _ _ _ =>
-      let s := { s with ops := (op, i, kind) :: s.ops }
+      let s := { s with ops := (op, i, kind, false) :: s.ops }
       match kind, s.get i with
       | .create, some x => pure (s.set { x with owed := none })
       | _, _ => pure s
     | .ret op r =>
       match s.ops.find? (·.1 = op) with
       | none => pure s
-      | some (_, i, kind) =>
+      | some (_, i, kind, isCheck) =>
         let s := { s with ops := s.ops.filter (·.1 ≠ op) }
-        match kind, r, s.get i with
-        | .get, .ok _ (some (.own o _ _)), some x => pure (s.set { x with known := if x.flag then x.known else some o })
-        | _, _, _ => pure s
+        -- only the periodic check records what it read (`observeLeader`); the takeover path's read does not
+        match kind, isCheck, r, s.get i with
+        | .get, true, .ok _ (some (.own o _ _)), some x => pure (s.set { x with known := if x.flag then x.known else some o })
+        | _, _, _, _ => pure s
     | .wev _ i _ v =>
       match s.get i, v with
       | some x, some (.own o _ prio) =>
